@@ -70,6 +70,9 @@ class Arm:
                 if pol is False:
                     for g in _disjuncts(t):
                         self.guards.add(g)
+                else:
+                    # atomic decisions: `t` holds on this path, i.e. the guard `!t` is false
+                    self.guards.add(t[1] if isinstance(t, tuple) and len(t) == 2 and t[0] == '!' else ('!', t))
         for s in self.p.stmts:
             if s.get('as'):
                 continue
